@@ -35,7 +35,9 @@ def gen_case(st, tier, env):
         n_max = 7 if env != "present" else 6
     if tier == "thorough" and env != "present" and k.random() < 0.04:
         n_max = 9  # value-only oracle (subset DP); the free solver handles 108 binaries
-    if fam < 0.35:
+    if fam < 0.12:
+        ds = gen.gen_cyclic_blocks_dataset(w, sizes=w.choice([[3], [4], [3, 2], [3, 3], [4, 2]]))
+    elif fam < 0.35:
         ds = gen.gen_sparse_dataset(w, n_max=n_max)
     elif fam < 0.45:
         ds = gen.gen_dataset(w, n_max=n_max, m_max=6, complete=True)
